@@ -2,8 +2,10 @@
 own try_to_proto / try_from_proto, plus the standalone conversion pairs."""
 from tagtab import *
 import protocov
+import srcfields
 
-TECHNIQUE = 'static analysis: exhaustive evaluation (A1) of enum conversions; inline enum mappings extracted from try_to_proto / try_from_proto by forcing the domain of the wire-typed local'
+TECHNIQUE = ('static analysis: exhaustive evaluation (A1) of enum conversions; inline enum mappings extracted from try_to_proto / try_from_proto by forcing the domain of the wire-typed local; '
+             'field coverage (A6) of wire messages and of the encoded structs (MIR place reads over the encoder-side call tree, parameter provenance of constructor stores)')
 EXPLANATION = ('For every physical operator that has both try_to_proto and try_from_proto and a field whose type is a fieldless enum '
                'with a same-named protobuf enum (AggregateExec.mode, HashJoinExec.{join_type, mode, null_equality}, NestedLoopJoinExec, '
                'SortMergeJoinExec, SymmetricHashJoinExec, AnalyzeExec.format): the encoder is explored with the field set to each variant '
@@ -16,7 +18,11 @@ EXPLANATION = ('For every physical operator that has both try_to_proto and try_f
                'different plans identical on the wire. The few (message, field) exceptions are frozen in rules/protocov.py, each with the '
                'reason read in the source. Optional wire fields: a decoder may read an optional field through unwrap_or* (collapsing absent and '
                'default) only if every encoder always writes Some(..) there; an encoder that passes a domain Option through needs a decoder that '
-               'keeps the distinction. Whether the value written is the RIGHT value, and equality of whole plans, are not decided.')
+               'keeps the distinction. Source-struct direction (operator-encoder-reads-every-option): for each of the 60 structs that have a try_to_proto, a field '
+               'that a public constructor/setter (of the struct or of its builder struct) fills from one of its parameters (configuration, as opposed to derived caches/schemas/metrics) and that '
+               'some non-test call site sets from a computed value must be read on the encoder side (try_to_proto, the proto crates, From<&S> conversions, '
+               'accessors they call; dyn accessor calls resolved to the impls) — otherwise the option is not on the wire. '
+               'Whether the value written is the RIGHT value, and equality of whole plans, are not decided.')
 ASSUMPTIONS = ['a protobuf enum value travels as the i32 of the same variant (prost)']
 
 
@@ -133,6 +139,8 @@ def run(ctx):
     # field-level agreement of every operator's own encoder and decoder
     protocov.check(ctx)
     protocov.check_default_collapse(ctx, floor=2)
+    # the other direction: every configuration field of an operator / expression / source / sink that the engine sets is read by its encoder
+    srcfields.check(ctx, floor_structs=50, floor_primary=100)
     import common
     st = ctx.st
     probe = common.Ctx(ctx.pid, ctx.tier, st, st, {})
@@ -145,5 +153,11 @@ def run(ctx):
     ctx.selftest('coverage rules detect an encoder that writes None for a field (BadEncLimit) and a decoder that ignores a field (BadDecSort), accept GoodLimit',
                  any(k.startswith('st-enc|') and 'BadEncLimit' in k for k in keys) and any(k.startswith('st-dec|') and 'BadDecSort' in k for k in keys)
                  and not any('GoodLimit' in k for k in keys))
+    before = len(probe.viol)
+    srcfields.check(probe, st, rule='st-opt', encoder_crates=('dfscan_selftest::nothing::',))
+    got = sorted(v['key'] for v in probe.viol[before:])
+    ctx.selftest('operator-encoder-reads-every-option fires on a setter-stored, planner-configured field the encoder never reads (BadScan.array_mode) and on one that '
+                 'reaches the operator through a separate builder struct (Report.level); silent on a constant-only option, a derived field, a twin of a read '
+                 'parameter, an option only copied from another instance and a builder field the encoder reads', got == ['st-opt|BadScan.array_mode', 'st-opt|Report.level'])
     b, _ = check_pairs(probe, st, 'st')
     ctx.selftest('round-trip rule detects a decoder that maps RightMark to LeftMark', b >= 1)
